@@ -176,3 +176,8 @@ def premise_reference_matches_cpython(P):
         if dt.time.fromisoformat(LocalTimePattern.extended_iso.format(LocalTime.from_time(t))) != t:
             bad.append(("time-format", hh, mi, ss, us))
     return (not bad), (f"mismatches: {bad}" if bad else "reference writer, CPython and the built-in patterns agree on the grid")
+
+
+from props import fpk  # noqa: E402
+
+fpk.declare()
